@@ -224,4 +224,16 @@ def judge (ε : Rat) (g : Grid) : List String :=
   (if NoOverlap ε g then [] else ["overlap"]) ++
   (if NonNegative ε g then [] else ["negative-size"])
 
+/-- for the report only: indices of the cells that break a per-cell clause -/
+def offenders (g : Grid) (p : Cell → Bool) : List Nat :=
+  (List.range g.cells.length).filter fun i => match g.cells[i]? with
+    | some c => !p c
+    | none => false
+
+def judgeCells (ε : Rat) (g : Grid) : List (String × List Nat) :=
+  [("cell-on-columns", offenders g fun c => decide (CellOnColumns ε g c)),
+   ("cell-on-rows", offenders g fun c => decide (CellOnRows ε g c)),
+   ("content-minimum", offenders g fun c => decide (leq ε c.minw c.cw)),
+   ("negative-size", offenders g fun c => decide (leq ε 0 c.w ∧ leq ε 0 c.h ∧ leq ε 0 c.cw ∧ leq ε 0 c.ch))]
+
 end WR.C13
